@@ -69,7 +69,9 @@ static _Bool verif_thrown = 0;
 #define INT_TO_REAL(src, x) ((real_t)(x))
 #endif
 #ifndef REAL_TO_INT
-#define REAL_TO_INT(ct, x) verif_unsupported_real_to_int(x)
+/* float -> integer truncation has no model over the reals: reaching one is an obligation that fails (so the function
+   stays undecidable-by-design only if the conversion is live; in dead code it costs nothing) */
+#define REAL_TO_INT(ct, x) ({ (void)(x); __CPROVER_assert(verif_thrown, "floating-point to integer conversion is not reached (not modelled over the reals)"); ct verif_r2i; verif_r2i; })
 #endif
 
 /* NaN / infinity have no counterpart over the reals: unspecified (but fixed) values */
